@@ -34,7 +34,7 @@ func RunC08(tier string) int {
 	n := tierN(tier, 32, 320)
 	kinds := []string{"mirror", "mirror", "local-first", "put-fault-then-retry", "b-get-5xx", "b-get-404", "b-get-truncated", "a-put-dropped", "b-head-5xx", "a-put-5xx-target",
 		"a-head-403", "a-head-5xx", "blobs-expired-then-B-then-C", "blobs-expired-then-B-then-C",
-		"b-restores-over-older-outputs", "b-restores-over-older-outputs"}
+		"b-restores-over-older-outputs", "b-restores-over-older-outputs", "a-record-replaced", "a-record-replaced"}
 	e1.Parallel(n, func(i int) {
 		r := rng.Derive(uint64(run.Seed), "C08", fmt.Sprint(i))
 		kind := kinds[i%len(kinds)]
@@ -179,12 +179,26 @@ func RunC08(tier string) int {
 		case "a-head-5xx":
 			fs3.Faults = []*S3Fault{{Verb: "HEAD", KeyPart: "/cas/", Kind: "500", Skip: r.Intn(3)}}
 		}
+		if kind == "a-record-replaced" {
+			// A first builds with the cache disabled (grog records results without outputs under
+			// the ordinary keys), then with the cache: every record of the first build is replaced.
+			// The store must end up with the replacements - a record is not immutable.
+			cfg.EnableCache = false
+			if _, _, ok := step("A-cache-disabled", e1.BuildOpts{DisableCache: true}, safety, true); !ok {
+				return
+			}
+			cfg.EnableCache = true
+			run.Count("records_replaced_scenarios", 1)
+		}
 		faultyA := len(fs3.Faults) > 0
 		jk := strict
+		if kind == "a-record-replaced" {
+			jk = safety
+		}
 		if faultyA {
 			jk = safety
 		}
-		if _, _, ok := step("A-cold", e1.BuildOpts{}, jk, faultyA); !ok {
+		if _, _, ok := step("A-cold", e1.BuildOpts{}, jk, faultyA || kind == "a-record-replaced"); !ok {
 			return
 		}
 		if kind == "a-put-dropped" {
@@ -277,7 +291,19 @@ func RunC08(tier string) int {
 				run.Count("B_builds_started_from_a_package_directory", 1)
 			}
 		}
+		if kind == "a-record-replaced" {
+			n412 := 0
+			for _, rq := range fs3.Log {
+				if rq.Status == 412 {
+					n412++
+				}
+			}
+			e1.Debugf("case %d a-record-replaced: %d conditional writes refused so far; log: %v", i, n412, env.Log)
+		}
 		_, obsB, ok := step("B-build", optsB, jk, faultyB)
+		if kind == "a-record-replaced" && obsB != nil {
+			e1.Debugf("case %d a-record-replaced: B started %v exit %d", i, obsB.Started, obsB.Res.Exit)
+		}
 		if !ok {
 			return
 		}
